@@ -8,6 +8,7 @@ OVERLAYS = [
     ("src/curve25519/scalar/mod.rs", "verif_scalar", "scalar.rs", None, "crate::curve25519::scalar"),
     ("src/ed25519.rs", "verif_ed", "ed25519.rs", None, "crate::ed25519"),
     ("src/curve25519/ge.rs", "verif_ge", "ge.rs", None, "crate::curve25519::ge"),
+    ("src/curve25519/mod.rs", "verif_x25519", "x25519.rs", None, "crate::curve25519"),
 ]
 # harness modules below a private module are re-exported from the nearest crate-visible ancestor for the native replay dispatcher
 EXPORTS = {
@@ -70,7 +71,7 @@ PROPS["C13"] = dict(
     level_note="Primitives recorded (arbitrary results), so the wiring holds for every behaviour of the primitives. Message length bound 3 bytes (address-identified).",
 )
 PROPS["C14"] = dict(
-    prefixes=["c14_"],
+    prefixes=["c14_", "c15_scalar_bytes_bits_nibbles"],
     level="model_checking",
     bounds="all public keys, all 64-byte signatures, message length symbolic 0..=3; decode outcome arbitrary; canonical-S decoder for all 2^256 strings",
     outside="the group equation itself ([S]B - [h]A computed correctly by the sliding-window routine, point decompression arithmetic) is recorded here; 'honest signatures verify' "
@@ -81,4 +82,20 @@ PROPS["C14"] = dict(
     level_text="verify returns true exactly when the key decodes, is not the all-zero string, S < L (decoder decided for every 32-byte string, so S+L, S+2L.. are refused) and ALL 32 bytes "
                "of the re-encoded [h]A'+[S]B equal R, with h = H(R||A||M) mod L; decided by CBMC for all (key, signature) pairs with the group primitives recorded.",
     level_note="Group arithmetic recorded (arbitrary result): the verdict logic holds for every result of the double-scalar product.",
+)
+
+PROPS["C12"] = dict(
+    prefixes=["c12_", "c15_fe_decode_encode_canonical"],
+    level="model_checking",
+    bounds="scalar side: all 2^256 scalars and all u strings (field operations recorded); field side: fe64 from_bytes / to_packed / add / sub / mul / square / mul_small<121666> for ALL limbs in "
+           "class LOOSE (mirsym), decode-encode canonical for all 2^256 strings (CBMC)",
+    outside="the ladder-step formulas as ring identities and the inversion addition chain (exponent p-2) are ring-level obligations listed in the evidence only when that engine ran; "
+            "'both parties derive the same secret' is a theorem about the RFC function, not about this code",
+    assumptions=["stubs (schedule harnesses): Fe::from_bytes/to_bytes/add/sub/mul/square/mul_small/invert/maybe_swap_with -> loop-free recorders; their semantics are C15/C18 obligations"] + _MS,
+    trusted=[],
+    explanation="X25519 = (clamp + bit schedule + swap logic) x (ladder step algebra) x (field arithmetic): the first and third factors are decided here",
+    level_text="For every scalar: clamping, bit order 254..0, swap ^= k_t conditional-swap schedule on both coordinate pairs, exactly 255 steps, final swap and encode(invert(z2)*x2), "
+               "for the general and the fixed-base function (u = 9); non-canonical u (bit 255 set, values >= p) handled by from_bytes/to_packed proven for all inputs.",
+    level_note="Ladder-step polynomial identities and the inversion chain are not part of this check unless listed in the evidence.",
+    extra=[mirsym_extra.make_extra("C12")],
 )
